@@ -4,7 +4,7 @@ from harness.props import base
 
 PROP = {
     "id": "C02",
-    "quick_n": 300,
+    "quick_n": 450,
     "thorough_n": 8000,
     "rule": "one program = tree spec, a stream over the tree's critical values (every edge, "
             "midpoint, threshold, +-ulp, nan, +-inf; strings/None/bool/nan categories) with weights "
